@@ -2,7 +2,7 @@
    'empty-namespace' and 'namespace-without-base-use'), the rows that become node elements of the written document are exactly the
    graph's nodes whose NodeId lies in the requested namespace, in table order. *)
 From Coq Require Import String Ascii List Bool Arith NArith ZArith Lia Sorted.
-Require Import PyStr PyInt Sexp Xml M_C09 M_C08 Ns Table M_Parse M_Write T_Write.
+Require Import PyStr PyInt Sexp Xml M_C09 T_C09 M_C08 Ns Table M_Parse M_Write T_Write.
 Import ListNotations.
 Open Scope char_scope.
 
@@ -131,7 +131,7 @@ Qed.
 
 (* ---------- the node elements of the written document ---------- *)
 Lemma find_first_row p k n : (exists r, In r (p_nodes p) /\ nr_nodeid r = n) ->
-  exists x, find (fun x : node_row * nodeid * option Z => nid_eqb (nr_nodeid (fst (fst x))) n) (w_nodes1 p k) = Some x /\
+  exists x, find (fun x : wrow => nid_eqb (nr_nodeid (fst (fst x))) n) (w_nodes1 p k) = Some x /\
             nid_ns (snd (fst x)) = w_remap (p_namespaces p) k (nid_ns n).
 Proof.
   intros [r [Hr Hn]]. unfold w_nodes1. induction (p_nodes p) as [|a l IH]; [contradiction|]. cbn [map find fst snd].
@@ -157,7 +157,7 @@ Proof.
   { unfold w_nodes1 in Hxin. apply in_map_iff in Hxin as [r [<- Hr]]. exists r. split; [exact Hr|reflexivity]. }
   assert (Hns : nid_ns (snd (fst x)) = w_remap (p_namespaces p) k (nid_ns (nr_nodeid (fst (fst x))))).
   { unfold w_nodes1 in Hxin. apply in_map_iff in Hxin as [r [<- Hr]]. reflexivity. }
-  destruct (find_first_row p k _ Hrow) as [y [Hy Hyns]]. rewrite Hy. rewrite Hyns, <- Hns.
+  unfold w_text_of, w_lookup. destruct (find_first_row p k _ Hrow) as [y [Hy Hyns]]. rewrite Hy. rewrite Hyns, <- Hns.
   destruct (w_compact (w_in_use p k refs) (nid_ns (snd (fst x)))) as [c|]; [|discriminate]. apply Z.eqb_eq in Hx1. subst c. reflexivity.
 Qed.
 Lemma str_index_nth u l : forall k, str_index u l = Some k -> nth k l [] = u /\ k < length l.
@@ -196,4 +196,122 @@ Proof.
     apply Z.leb_le in Ha. apply Z.ltb_lt in Hc. split; [lia|]. intros b Eb. rewrite Eb in Hb. now apply Z.leb_le in Hb.
   - apply existsb_exists in H0 as [x [Hx E]]. apply Z.eqb_eq in E. now subst x.
   - apply existsb_exists in Hex as [r [Hr E]]. apply Z.eqb_eq in E. eauto.
+Qed.
+
+(* ================= placement of the Reference elements ================= *)
+Lemma print_nodeid_inj a b : print_nodeid a = print_nodeid b -> a = b.
+Proof.
+  intros H. pose proof (T_C09.cached_parse_print a) as Pa. pose proof (T_C09.cached_parse_print b) as Pb. rewrite H in Pa. rewrite Pa in Pb.
+  injection Pb as E1 E2 E3. destruct a, b; cbn in *; congruence.
+Qed.
+Lemma print_not_nan n : print_nodeid n <> lit "nan".
+Proof. unfold print_nodeid. destruct (nid_ns n =? 0)%Z; [destruct (nid_type n); discriminate|discriminate]. Qed.
+Section Placement.
+  Variables (p : parsed) (k : nat) (refs : list triple).
+  Hypothesis Hreg : regular p k refs.
+  Let in_use := w_in_use p k refs.
+  Let W := map (fun x : wrow => nr_nodeid (fst (fst x))) (w_written p k in_use).
+  Lemma W_char n : In n W <-> (exists r, In r (p_nodes p) /\ nr_nodeid r = n /\ nid_ns n = Z.of_nat k).
+  Proof.
+    unfold W, in_use. rewrite <- (map_map (fun x : wrow => fst (fst x)) nr_nodeid), (written_rows_exact p k refs Hreg). rewrite in_map_iff. split.
+    - intros [r [<- Hr]]. apply filter_In in Hr as [Hr He]. apply Z.eqb_eq in He. eauto.
+    - intros [r [Hr [<- He]]]. exists r. split; [reflexivity|]. apply filter_In. split; [exact Hr|now apply Z.eqb_eq].
+  Qed.
+  Lemma lookup_written wid : In wid W -> w_lookup p k in_use wid = Some (with_nid_ns wid 1).
+  Proof.
+    intros Hw. apply W_char in Hw as [r [Hr [Hn Hk]]]. destruct Hreg as [Hnd [Hkk [Hi [H0 Hne]]]].
+    pose proof (compact_one in_use (zsort_sorted _) (in_use_nonneg p k refs Hi) H0 (in_use_has_one p k refs Hnd Hkk Hi Hne)) as Hc.
+    unfold w_lookup. destruct (find_first_row p k wid (ex_intro _ r (conj Hr Hn))) as [y [Hy Hyns]]. rewrite Hy, Hyns, Hk.
+    assert (E1 : w_remap (p_namespaces p) k (Z.of_nat k) = 1%Z) by (apply remap_one; [exact Hnd|exact Hkk|lia|reflexivity]).
+    rewrite E1. assert (Ec : w_compact in_use 1 = Some 1%Z) by (now apply Hc). now rewrite Ec.
+  Qed.
+  (* the text of a NodeId equals the text of a written node's NodeId exactly when it IS that NodeId *)
+  Lemma text_eq_written n wid : In wid W -> str_eqb (w_text_of p k in_use n) (w_text_of p k in_use wid) = nid_eqb n wid.
+  Proof.
+    intros Hw. pose proof (lookup_written wid Hw) as Lw. unfold w_text_of. rewrite Lw.
+    destruct (nid_eqb n wid) eqn:En.
+    - apply nid_eqb_eq in En. subst n. rewrite Lw. apply str_eqb_refl.
+    - destruct (w_lookup p k in_use n) as [m|] eqn:Ln.
+      + destruct (str_eqb (print_nodeid m) (print_nodeid (with_nid_ns wid 1))) eqn:Es; [|reflexivity]. exfalso.
+        apply str_eqb_eq in Es. apply print_nodeid_inj in Es. subst m.
+        unfold w_lookup in Ln. destruct (find (fun x : wrow => nid_eqb (nr_nodeid (fst (fst x))) n) (w_nodes1 p k)) as [x|] eqn:Ef; [|discriminate].
+        destruct (w_compact in_use (nid_ns (snd (fst x)))) as [c|] eqn:Ec; [|discriminate]. injection Ln as Ec1 Et Ev. subst c.
+        apply find_some in Ef as [Hx Hxn]. apply nid_eqb_eq in Hxn.
+        destruct Hreg as [Hnd [Hkk [Hi [H0 Hne]]]].
+        pose proof (compact_one in_use (zsort_sorted _) (in_use_nonneg p k refs Hi) H0 (in_use_has_one p k refs Hnd Hkk Hi Hne)) as Hc.
+        apply Hc in Ec. unfold w_nodes1 in Hx. apply in_map_iff in Hx as [r [<- Hr]]. cbn [fst snd with_nid_ns nid_ns] in *.
+        destruct (node_ns_nat p r Hi Hr) as [j [Hj Ej]]. rewrite Ej in Ec. apply remap_one in Ec; [|exact Hnd|exact Hkk|exact Hj]. subst j.
+        apply W_char in Hw as [rw [_ [_ Hkw]]].
+        assert (E : n = wid).
+        { rewrite Hxn in Ej. destruct n as [nn nt nv], wid as [wn wt wv]. cbn [nid_ns nid_type nid_value] in *. congruence. }
+        subst n. assert (nid_eqb wid wid = true) by (now apply nid_eqb_eq). congruence.
+      + destruct (str_eqb (lit "nan") (print_nodeid (with_nid_ns wid 1))) eqn:Es; [|reflexivity]. apply str_eqb_eq in Es. symmetry in Es. now apply print_not_nan in Es.
+  Qed.
+  Lemma exists_written n : existsb (fun wid => str_eqb (w_text_of p k in_use n) (w_text_of p k in_use wid)) W = mem_nid n W.
+  Proof.
+    unfold mem_nid. assert (G : forall l, (forall x, In x l -> In x W) -> existsb (fun wid => str_eqb (w_text_of p k in_use n) (w_text_of p k in_use wid)) l = existsb (nid_eqb n) l).
+    { induction l as [|x l IH]; intros Hl; [reflexivity|]. cbn [existsb]. rewrite text_eq_written by (apply Hl; now left). rewrite IH; [reflexivity|]. intros y Hy. apply Hl. now right. }
+    apply G. auto.
+  Qed.
+  (* C06: under a written node `me`, exactly the references whose target is `me` (as inverse references) and the references whose
+     source is `me` and whose target is not a written node (as forward references) *)
+  Theorem ref_elems_exact me : In me W ->
+    w_ref_elems p k in_use refs me =
+    flat_map (fun t : triple => let '(s, tg, ty) := t in
+      if mem_nid tg W then (if nid_eqb tg me then [{| re_attrs := [(lit "ReferenceType", w_text_of p k in_use ty); (lit "IsForward", lit "false")]; re_text := Some (w_text_of p k in_use s) |}] else [])
+      else if nid_eqb s me then [{| re_attrs := [(lit "ReferenceType", w_text_of p k in_use ty)]; re_text := Some (w_text_of p k in_use tg) |}] else []) refs.
+  Proof.
+    intros Hme. unfold w_ref_elems. fold W. apply flat_map_ext. intros [[s tg] ty]. rewrite exists_written, !(text_eq_written _ me Hme). reflexivity.
+  Qed.
+End Placement.
+
+(* every reference with an endpoint in U is written exactly once, no other reference is written *)
+Definition lsum (l : list nat) : nat := fold_right Nat.add 0 l.
+Lemma length_flat_map {A B} (f : A -> list B) l : length (flat_map f l) = lsum (map (fun x => length (f x)) l).
+Proof. induction l as [|x l IH]; [reflexivity|]. cbn [flat_map map lsum fold_right]. now rewrite app_length, IH. Qed.
+Lemma lsum_zero {B} (l : list B) : lsum (map (fun _ => 0) l) = 0.
+Proof. induction l as [|b l IH]; [reflexivity|]. cbn [map lsum fold_right]. exact IH. Qed.
+Lemma lsum_add {B} (f h : B -> nat) l : lsum (map (fun b => f b + h b) l) = lsum (map f l) + lsum (map h l).
+Proof. induction l as [|b l IH]; [reflexivity|]. cbn [map lsum fold_right] in *. unfold lsum in IH. rewrite IH. lia. Qed.
+Lemma lsum_swap {A B} (g : A -> B -> nat) la lb : lsum (map (fun a => lsum (map (g a) lb)) la) = lsum (map (fun b => lsum (map (fun a => g a b) la)) lb).
+Proof.
+  induction la as [|a la IH].
+  - cbn [map]. symmetry. apply lsum_zero.
+  - cbn [map]. change (lsum (lsum (map (g a) lb) :: map (fun a0 => lsum (map (g a0) lb)) la)) with (lsum (map (g a) lb) + lsum (map (fun a0 => lsum (map (g a0) lb)) la)).
+    rewrite IH, <- lsum_add. reflexivity.
+Qed.
+Lemma count_eq_nodup n l : NoDup l -> lsum (map (fun m => if nid_eqb n m then 1 else 0) l) = if mem_nid n l then 1 else 0.
+Proof.
+  intros Hnd. induction Hnd as [|x l Hx _ IH]; [reflexivity|]. cbn [map lsum fold_right]. fold (lsum (map (fun m : nodeid => if nid_eqb n m then 1 else 0) l)). rewrite IH.
+  unfold mem_nid. cbn [existsb]. destruct (nid_eqb n x) eqn:E; [|reflexivity]. apply nid_eqb_eq in E. subst x.
+  destruct (existsb (nid_eqb n) l) eqn:Ex; [|reflexivity]. exfalso. apply Hx. apply existsb_exists in Ex as [y [Hy Ey]]. apply nid_eqb_eq in Ey. now subst.
+Qed.
+Lemma lsum_indicator {A} (q : A -> bool) l : lsum (map (fun t => if q t then 1 else 0) l) = length (filter q l).
+Proof. induction l as [|t l IH]; [reflexivity|]. cbn [map filter]. change (lsum ((if q t then 1 else 0) :: map (fun t0 => if q t0 then 1 else 0) l)) with ((if q t then 1 else 0) + lsum (map (fun t0 => if q t0 then 1 else 0) l)). rewrite IH. destruct (q t); reflexivity. Qed.
+Lemma flat_map_ext_in' {A B} (f g : A -> list B) l : (forall a, In a l -> f a = g a) -> flat_map f l = flat_map g l.
+Proof. induction l as [|x l IH]; intros H; [reflexivity|]. cbn [flat_map]. rewrite (H x (or_introl eq_refl)), IH; [reflexivity|]. intros a Ha. apply H. now right. Qed.
+Theorem refs_written_once p k refs : regular p k refs ->
+  let in_use := w_in_use p k refs in
+  let W := map (fun x : wrow => nr_nodeid (fst (fst x))) (w_written p k in_use) in
+  NoDup W ->
+  length (flat_map (w_ref_elems p k in_use refs) W) = length (filter (fun t : triple => mem_nid (snd (fst t)) W || mem_nid (fst (fst t)) W) refs).
+Proof.
+  intros Hreg in_use W Hnd.
+  assert (E : flat_map (w_ref_elems p k in_use refs) W = flat_map (fun me =>
+    flat_map (fun t : triple => let '(s, tg, ty) := t in
+      if mem_nid tg W then (if nid_eqb tg me then [{| re_attrs := [(lit "ReferenceType", w_text_of p k in_use ty); (lit "IsForward", lit "false")]; re_text := Some (w_text_of p k in_use s) |}] else [])
+      else if nid_eqb s me then [{| re_attrs := [(lit "ReferenceType", w_text_of p k in_use ty)]; re_text := Some (w_text_of p k in_use tg) |}] else []) refs) W).
+  { apply flat_map_ext_in'. intros me Hme. now apply (ref_elems_exact p k refs Hreg me). }
+  rewrite E. clear E. rewrite length_flat_map.
+  set (g := fun (me : nodeid) (t : triple) => let '(s, tg, ty) := t in if mem_nid tg W then (if nid_eqb tg me then 1 else 0) else if nid_eqb s me then 1 else 0).
+  assert (E1 : forall me, length (flat_map (fun t : triple => let '(s, tg, ty) := t in
+      if mem_nid tg W then (if nid_eqb tg me then [{| re_attrs := [(lit "ReferenceType", w_text_of p k in_use ty); (lit "IsForward", lit "false")]; re_text := Some (w_text_of p k in_use s) |}] else [])
+      else if nid_eqb s me then [{| re_attrs := [(lit "ReferenceType", w_text_of p k in_use ty)]; re_text := Some (w_text_of p k in_use tg) |}] else []) refs) = lsum (map (g me) refs)).
+  { intros me. rewrite length_flat_map. f_equal. apply map_ext. intros [[s tg] ty]. unfold g. destruct (mem_nid tg W); [destruct (nid_eqb tg me)|destruct (nid_eqb s me)]; reflexivity. }
+  rewrite (map_ext _ _ E1). rewrite lsum_swap.
+  assert (E2 : forall t : triple, lsum (map (fun me => g me t) W) = if mem_nid (snd (fst t)) W || mem_nid (fst (fst t)) W then 1 else 0).
+  { intros [[s tg] ty]. unfold g. cbn [fst snd]. destruct (mem_nid tg W) eqn:Et.
+    - rewrite (count_eq_nodup tg W Hnd), Et. reflexivity.
+    - rewrite (count_eq_nodup s W Hnd). reflexivity. }
+  rewrite (map_ext _ _ E2). apply lsum_indicator.
 Qed.
